@@ -229,6 +229,8 @@ func TestC37(t *testing.T) {
 			go func() { defer wg.Done(); f(fr) }()
 		}
 		var refused int64
+		var refMu sync.Mutex
+		var refusedErrs []string
 		for k := 0; k < 2; k++ {
 			ss := blockSteps[k]
 			start(func(fr *ev.Rand) {
@@ -237,6 +239,9 @@ func TestC37(t *testing.T) {
 					d.op("block", func() {
 						if _, err := nd.Chain.ProcessBlock(chainkit.CloneBlock(s.Blk.B)); err != nil {
 							atomic.AddInt64(&refused, 1)
+							refMu.Lock()
+							refusedErrs = append(refusedErrs, fmt.Sprintf("h%d %s: %v", s.Blk.Height, chainkit.HashShort(s.Blk.Hash), err))
+							refMu.Unlock()
 						}
 					})
 					if fr.Chance(1, 3) {
@@ -410,6 +415,29 @@ func TestC37(t *testing.T) {
 		got := nd.Best()
 		ctx := map[string]interface{}{"shape": tr.Shape(), "gomaxprocs": procs, "blocks_refused": refused, "stored": len(stored), "of": len(tr.All)}
 		if want == nil || want.Hash != got {
+			// everything needed to tell a missed reorganisation from a block the engine never took
+			refMu.Lock()
+			ctx["refused_blocks"] = append([]string{}, refusedErrs...)
+			refMu.Unlock()
+			ctx["engine_best"] = chainkit.HashShort(nd.Chain.VerifCasper().VerifBestChain())
+			var tl, missing []string
+			for _, x := range nd.Chain.VerifCasper().VerifTree() {
+				tl = append(tl, fmt.Sprintf("%*sh%d %s st=%d parent=%s", x.Depth*2, "", x.Height, chainkit.HashShort(x.Hash), x.Status, chainkit.HashShort(x.ParentHash)))
+			}
+			ctx["engine_tree"] = tl
+			for _, b := range tr.All {
+				if !stored[b.Hash] {
+					missing = append(missing, fmt.Sprintf("h%d %s", b.Height, chainkit.HashShort(b.Hash)))
+				}
+			}
+			ctx["not_stored"] = missing
+			if want != nil {
+				var path []string
+				for x := want; x != nil; x = x.Parent {
+					path = append(path, fmt.Sprintf("h%d %s", x.Height, chainkit.HashShort(x.Hash)))
+				}
+				ctx["want_path"] = path
+			}
 			if want != nil {
 				ctx["want"] = fmt.Sprintf("h%d %s", want.Height, chainkit.HashShort(want.Hash))
 			}
